@@ -15,10 +15,10 @@ func init() {
 		DesignRef: "DESIGN.md §5 C46",
 		Level: "Decides that the queue is only touched under the send loop's mutex and only written by the constructor, add and nextBatch, that a batch handed to the sender is a new slice that shares no storage with the queue (alerts are taken from the front, in order), that every place that discards alerts (oversized input, overflow of the queue, a failed send, a stop without drain) adds the number discarded to the dropped counter, " +
 			"that stop drains the queue when configured to and counts what is left otherwise, that add never enqueues after stop, and that add always raises the work signal after enqueueing.",
-		Note:     "Trusted: go/packages, go/types, go/cfg; rule tables in checker/c46.go.",
-		Covers:   "sendLoop.add, nextBatch, sendOneBatch, stop, drainQueue, notifyWork, loop.",
-		NotCover: "batch contents and sizes at run time, HTTP delivery, retries, relabelling of alerts.",
-		Run:      runC46,
+		Note:           "Trusted: go/packages, go/types, go/cfg; rule tables in checker/c46.go.",
+		Covers:         "sendLoop.add, nextBatch, sendOneBatch, stop, drainQueue, notifyWork, loop.",
+		NotCover:       "batch contents and sizes at run time, HTTP delivery, retries, relabelling of alerts.",
+		Run:            runC46,
 		MinObligations: 18,
 	})
 }
@@ -92,7 +92,7 @@ func runC46(c *eng.Ctx) {
 	sb.Only("R2", p.Call(S+".sendAll"), "sends the batch just taken", func(l eng.Loc) bool { a := eng.CallArgsText(l); return len(a) == 1 && a[0] == "alerts" })
 	c.CallersSubset("R2", S+".nextBatch", 1, S+".sendOneBatch")
 	// ---- R3 stop ----
-	st := c.Fn(S + ".stop").Closure("once", p.Call(S+".drainQueue"))
+	st := c.Fn(S+".stop").Closure("once", p.Call(S+".drainQueue"))
 	st.GivenBranch("s.opts.DrainOnShutdown", true).Reachable("R3", p.Call(S+".drainQueue"))
 	st.GivenBranch("s.opts.DrainOnShutdown", true).Unreachable("R3", dropped)
 	st.GivenBranch("s.opts.DrainOnShutdown", false).Reachable("R3", dropped)
